@@ -70,6 +70,34 @@ fn repeat_block(d: &[u8], start: usize, len: usize, n: usize) -> Vec<u8> {
     v
 }
 
+/// the store with its first manifest's content replaced by one `brob` box holding
+/// `inflated` zero bytes, brotli-compressed
+fn brotli_bomb(store: &[u8], inflated: u64) -> Option<Vec<u8>> {
+    use std::io::Read;
+    let top = crate::jumbf::parse(store);
+    let st = top.first()?;
+    let m = st.children.iter().find(|c| &c.typ == b"jumb")?;
+    let jd = m.children.first()?;
+    let mut comp = Vec::new();
+    let params = brotli::enc::BrotliEncoderParams { quality: 3, ..Default::default() };
+    brotli::BrotliCompress(&mut std::io::repeat(0).take(inflated), &mut comp, &params).ok()?;
+    let mut mbox = Vec::new();
+    mbox.extend_from_slice(&store[jd.start..jd.end]);
+    mbox.extend_from_slice(&((comp.len() + 8) as u32).to_be_bytes());
+    mbox.extend_from_slice(b"brob");
+    mbox.extend_from_slice(&comp);
+    let mut out = Vec::new();
+    let outer_jd = st.children.first()?;
+    let total = 8 + (outer_jd.end - outer_jd.start) + 8 + mbox.len();
+    out.extend_from_slice(&(total as u32).to_be_bytes());
+    out.extend_from_slice(b"jumb");
+    out.extend_from_slice(&store[outer_jd.start..outer_jd.end]);
+    out.extend_from_slice(&((mbox.len() + 8) as u32).to_be_bytes());
+    out.extend_from_slice(b"jumb");
+    out.extend_from_slice(&mbox);
+    Some(out)
+}
+
 /// wrap a JUMBF store in `depth` levels of superbox
 fn nest_store(store: &[u8], depth: usize) -> Vec<u8> {
     let mut jumd = Vec::new();
@@ -225,6 +253,24 @@ impl Property for C10 {
                     out.keys.push(hash_str(&format!("nest|{depth}")));
                     run_one(&mut out, sub, "nesting", Entry::SidecarStore, "image/jpeg", &n, &asset, &format!("store wrapped in {depth} superboxes"));
                     run_one(&mut out, sub, "nesting", Entry::Read, "application/c2pa", &n, &asset, &format!("store wrapped in {depth} superboxes, read as .c2pa"));
+                }
+                // decompression bombs: the first manifest replaced by a brotli box that inflates
+                // to far more than any manifest-size limit (core.max_decompressed_manifest_size_in_mb)
+                for (i, mib) in [40u64, 700].iter().enumerate() {
+                    let sub = 20 + i as u64;
+                    if !rc.want_sub(sub) {
+                        continue;
+                    }
+                    rc.mark(sub);
+                    let Some(n) = brotli_bomb(&store, *mib << 20) else {
+                        out.probe("bomb_not_built");
+                        continue;
+                    };
+                    out.fault("decompression_bomb");
+                    out.keys.push(hash_str(&format!("bomb|{mib}")));
+                    let what = format!("manifest replaced by a {}-byte brotli box inflating to {mib} MiB", n.len());
+                    run_one(&mut out, sub, "bomb", Entry::SidecarStore, "image/jpeg", &n, &asset, &what);
+                    run_one(&mut out, sub, "bomb", Entry::Read, "application/c2pa", &n, &asset, &what);
                 }
                 // repeat the first assertion box many times
                 let ab = crate::jumbf::assertion_boxes(&store);
